@@ -30,10 +30,12 @@ type jsCall struct {
 // transform's result cache hands them out again; (re)built by c20ResetShared before every history
 var c20SharedArray []interface{}
 var c20SharedObject map[string]interface{}
+var c20SharedNested []interface{} // a plain value first, containers after it
 
 func c20ResetShared() {
 	c20SharedArray = []interface{}{int64(1), int64(3), int64(2)}
 	c20SharedObject = map[string]interface{}{"k": "v"}
+	c20SharedNested = []interface{}{int64(1), map[string]interface{}{"q": int64(2)}, []interface{}{int64(5)}}
 }
 
 func c20Alphabet() []jsCall {
@@ -67,6 +69,8 @@ func c20Alphabet() []jsCall {
 		{Name: "arg-array-first", JS: "p[0] + '/' + p.length", Args: []interface{}{"p", c20SharedArray}, Want: `"1/3"`},
 		{Name: "arg-object-extended-in-place", JS: "o.added = 1; Object.keys(o).length", Args: []interface{}{"o", c20SharedObject}, Want: "2"},
 		{Name: "arg-object-keys", JS: "Object.keys(o).join(',')", Args: []interface{}{"o", c20SharedObject}, Want: `"k"`},
+		{Name: "arg-nested-parts-changed-in-place", JS: "p[1].q = 20; p[2][0] = 6; p[1].q + p[2][0]", Args: []interface{}{"p", c20SharedNested}, Want: "26"},
+		{Name: "arg-nested-parts-read", JS: "p[0] + '/' + p[1].q + '/' + p[2][0]", Args: []interface{}{"p", c20SharedNested}, Want: `"1/2/5"`},
 		{Name: "newrec", Ctx: "newrec"},
 		{Name: "ctx-rec", JS: "JSON.parse(_node).v", Ctx: "rec"},
 		{Name: "ctx-rec-with-arg", JS: "JSON.parse(_node).v + a", Args: []interface{}{"a", "!"}, Ctx: "rec"},
@@ -147,6 +151,9 @@ func (w *jsWorld) reference(c jsCall) string {
 			switch a.(type) {
 			case []interface{}:
 				args[i] = []interface{}{int64(1), int64(3), int64(2)}
+				if strings.HasPrefix(c.Name, "arg-nested-") {
+					args[i] = []interface{}{int64(1), map[string]interface{}{"q": int64(2)}, []interface{}{int64(5)}}
+				}
 			case map[string]interface{}:
 				args[i] = map[string]interface{}{"k": "v"}
 			}
@@ -522,6 +529,58 @@ func init() {
 						}
 						return true
 					})
+				}
+			}
+			// E3b: a call that fails for some record is declared twice on the same node, once as the source of
+			// an xpath_dynamic (whose failure only means "no such node") and once as a plain value: the plain
+			// value's failure is reported whichever of the two is evaluated first, for every error form
+			for _, errForm := range []string{"throw 'bad'", "return 0/0", "return 1/0", "return null", "return undefined"} {
+				for _, order := range [][2]string{{"a_dyn", "z_val"}, {"z_dyn", "a_val"}} {
+					call := `{"custom_func":{"name":"javascript","args":[{"const":"(function(){ if (v=='F') { ` + errForm + ` } return 'id' })()"},{"const":"v"},{"xpath":"id"}]}}`
+					st := `{"parser_settings":{"version":"omni.2.1","file_format_type":"xml"},"transform_declarations":{"FINAL_OUTPUT":{"xpath":"/feed/item","object":{
+ "` + order[0] + `":{"xpath_dynamic":` + call + `},"` + order[1] + `":` + call + `}}}}`
+					idx++
+					if !c.Mine(idx) {
+						continue
+					}
+					schema, err, _ := hx.NewSchema("s", st)
+					if err != nil {
+						c.HarnessError("E3b schema rejected: " + err.Error())
+						continue
+					}
+					for _, seq := range []string{"F", "AF", "FA", "FF", "AFA"} {
+						cs := c20Case{History: []string{"transform-dyn+plain:" + errForm + ":" + order[0] + ":" + seq}}
+						c.Begin(func() interface{} { return cs })
+						resetProcessState()
+						var b strings.Builder
+						b.WriteString("<feed>")
+						for i := 0; i < len(seq); i++ {
+							b.WriteString("<item><id>" + string(seq[i]) + "</id></item>")
+						}
+						b.WriteString("</feed>")
+						r := hx.Run(schema, strings.NewReader(b.String()), hx.Opts{MaxReads: 20, NoChecksum: true})
+						c.Eval("E3b|" + errForm + "|" + order[0] + "|" + seq)
+						c.Count("transform_level_sequences", 1)
+						for i := 0; i < len(seq); i++ {
+							got := "<missing>"
+							if i < len(r.Steps) {
+								got = r.Steps[i].Kind + " " + r.Steps[i].Out
+							}
+							want := `rec {"` + order[0] + `":"A","` + order[1] + `":"id"}`
+							if order[1] < order[0] {
+								want = `rec {"` + order[1] + `":"id","` + order[0] + `":"A"}`
+							}
+							ok := got == want
+							if seq[i] == 'F' {
+								want = "a failure of the record (the call's error)"
+								ok = strings.HasPrefix(got, "fail")
+							}
+							if !ok {
+								c.Violation("E3b:failed-call-not-reported-when-also-used-in-xpath_dynamic", fmt.Sprintf("schema %s\nrecords %s, position %d:\n-- got:      %s\n-- expected: %s", st, seq, i, got, want), cs, nil)
+								break
+							}
+						}
+					}
 				}
 			}
 			// E2
